@@ -22,6 +22,8 @@ pub enum Ty {
     Real,
     Double,
     Num(u8, u8),
+    /// DECIMAL(p, s): same values as NUMERIC, its own type name in the catalog
+    Dec(u8, u8),
     Bool,
     Varchar(u32),
     Char(u32),
@@ -45,6 +47,7 @@ impl Ty {
             Ty::Real => "REAL".into(),
             Ty::Double => "DOUBLE PRECISION".into(),
             Ty::Num(p, s) => format!("NUMERIC({}, {})", p, s),
+            Ty::Dec(p, s) => format!("DECIMAL({}, {})", p, s),
             Ty::Bool => "BOOLEAN".into(),
             Ty::Varchar(n) => format!("VARCHAR({})", n),
             Ty::Char(n) => format!("CHAR({})", n),
@@ -116,7 +119,7 @@ fn ty_class_of(ty: &Ty) -> &'static str {
         Ty::Int | Ty::Big => "int",
         Ty::Real | Ty::Float(_) => "f32",
         Ty::Double => "f64",
-        Ty::Num(..) => "numeric",
+        Ty::Num(..) | Ty::Dec(..) => "numeric",
         Ty::Bool => "bool",
         Ty::Varchar(_) | Ty::Char(_) | Ty::Text => "str",
         Ty::Date => "date",
@@ -134,6 +137,7 @@ fn ty_label_of(ty: &Ty) -> &'static str {
         Ty::Real => "real",
         Ty::Double => "double",
         Ty::Num(..) => "numeric",
+        Ty::Dec(..) => "decimal",
         Ty::Bool => "boolean",
         Ty::Varchar(_) => "varchar",
         Ty::Char(_) => "char",
@@ -576,7 +580,7 @@ fn gen_value_raw(t: &mut Tape, ty: &Ty, api: bool, nasty: bool) -> V {
                 V::Double(gen_f64_sql(t).to_bits())
             }
         }
-        Ty::Num(_, s) => {
+        Ty::Num(_, s) | Ty::Dec(_, s) => {
             // exact at the declared scale, modest magnitude
             let scale = 10f64.powi(*s as i32);
             let k = match t.weighted(&[3, 2]) {
@@ -614,7 +618,7 @@ fn simple_value(ty: &Ty) -> V {
         Ty::Real => V::Real(1.5f32.to_bits()),
         Ty::Float(_) => V::Float(1.5f32.to_bits()),
         Ty::Double => V::Double(1.5f64.to_bits()),
-        Ty::Num(..) => V::Num(1.25f64.to_bits()),
+        Ty::Num(..) | Ty::Dec(..) => V::Num(1.25f64.to_bits()),
         Ty::Bool => V::Bool(true),
         Ty::Varchar(_) | Ty::Text => V::Varchar("a".into()),
         Ty::Char(_) => V::Char("a".into()),
@@ -708,7 +712,7 @@ fn gen_type(t: &mut Tape, o: &GenOpts, excluded: &mut u64) -> Ty {
                 _ => Ty::IntervalDay,
             }
         } else {
-            match t.below(12) {
+            match t.below(13) {
                 0 => Ty::Int,
                 1 => Ty::Varchar(*t.pick(&[20u32, 5, 1, 100])),
                 2 => Ty::Double,
@@ -720,6 +724,7 @@ fn gen_type(t: &mut Tape, o: &GenOpts, excluded: &mut u64) -> Ty {
                 8 => Ty::Date,
                 9 => Ty::Time,
                 10 => Ty::Ts,
+                11 => Ty::Dec(*t.pick(&[8u8, 12, 20]), *t.pick(&[3u8, 1, 2])),
                 _ => Ty::Small,
             }
         };
